@@ -23,6 +23,8 @@ CONSTANTS
     DevVals = {"flip"}
     PresentBudget = 0
     BurstN = 64
+    PressMax = 0
+    TouchOn = {}
     Mode = "mc"
     Depth = 0
 VIEW View
